@@ -226,7 +226,7 @@ struct Cfg {
     perm: u8,
 }
 
-const CFGS: [Cfg; 8] = [
+const CFGS: [Cfg; 10] = [
     Cfg { debug: false, optimize: false, perm: 0 },
     Cfg { debug: true, optimize: false, perm: 0 },
     Cfg { debug: false, optimize: true, perm: 0 },
@@ -235,18 +235,27 @@ const CFGS: [Cfg; 8] = [
     Cfg { debug: true, optimize: false, perm: 1 },
     Cfg { debug: false, optimize: true, perm: 1 },
     Cfg { debug: true, optimize: true, perm: 1 },
+    // two lists with different permissions in one engine: 0x80 = rules at even positions are
+    // parsed with permission 1 and the others with 0; 0x81 = the other way round
+    Cfg { debug: false, optimize: true, perm: 0x80 },
+    Cfg { debug: false, optimize: true, perm: 0x81 },
 ];
 
 fn filter_set(rules: &[RuleRef], debug: bool, perm: u8) -> (FilterSet, usize) {
     let mut fs = FilterSet::new(debug);
     let mut accepted = 0;
-    for (text, fm) in rules {
+    for (i, (text, fm)) in rules.iter().enumerate() {
+        let rule_perm = match perm {
+            0x80 => (1 - i % 2) as u8,
+            0x81 => (i % 2) as u8,
+            p => p,
+        };
         let opts = ParseOptions {
             format: match fm {
                 Fm::Std => FilterFormat::Standard,
                 Fm::Hosts => FilterFormat::Hosts,
             },
-            permissions: PermissionMask::from_bits(perm),
+            permissions: PermissionMask::from_bits(rule_perm),
             ..ParseOptions::default()
         };
         if fs.add_filter(text, opts).is_ok() {
